@@ -222,6 +222,14 @@ def _wrap(name, fn):
                     for (key, buf), v in zip(used, hist.originals):   # whatever the unjudged calls did to the buffers
                         np.copyto(buf, v)
                 hist.n[name] = hn + 1
+                # half of the judged calls get their array arguments read-only (memory-mapped data is): a write into
+                # the caller's array, even one that is undone before returning, raises instead of going unnoticed
+                locked = []
+                if history._pick(name, hn, 'w') % 2 == 0:
+                    for key, buf in used:
+                        buf.setflags(write=False)
+                        locked.append(buf)
+                    hist.stats['readonly_argument_calls'] += 1 if locked else 0
                 args, kwargs = bound.args, bound.kwargs
                 hist.remember(name, fn, bound)
                 det_fn = 'seed' not in bound.arguments and name not in hist.nondet
@@ -255,6 +263,12 @@ def _wrap(name, fn):
                 exc = e
             if hist is not None:
                 hist.cost[name] = 0.7 * hist.cost.get(name, 0.0) + 0.3 * (time.perf_counter() - t_call)
+                for buf in locked:
+                    buf.setflags(write=True)
+                if locked and isinstance(exc, ValueError) and 'read-only' in str(exc):
+                    REC.check('C13', name, 'args_unchanged', False,
+                              {'function': name, 'exception': repr(exc)[:200], 'kwargs': {k: v for k, v in kwargs.items() if not isinstance(v, np.ndarray)}},
+                              ['attempted_write_to_readonly_argument'])
             # ---- C13: arguments unchanged
             if snaps:
                 allow = name in COPY_FALSE_OK and bound is not None and bound.arguments.get('copy', True) is False
